@@ -307,6 +307,9 @@ func TestC01Retransmit(t *testing.T) {
 		cfg := baseConfig()
 		cfg.AtLeastOnceMax = rapid.SampledFrom([]int{1, 2, 3, 5, 16}).Draw(rt, "max1")
 		cfg.ExactlyOnceMax = rapid.SampledFrom([]int{1, 2, 3, 5, 16}).Draw(rt, "max2")
+		// (a clean session asks the broker to start blank; what the client itself
+		// accepted before its first connection is still its to deliver)
+		cfg.CleanSession = rapid.IntRange(0, 2).Draw(rt, "cleanSession") == 0
 		// (sometimes the session stands just before the wrap of the 14-bit
 		// identifier sequence: the window of pending transfers straddles it)
 		var h *H
